@@ -660,7 +660,11 @@ class BytesNode(Node):
 
     def _construct(self):
         content = self.children["content"].getvalue()
-        return content
+        cls = gettype(self.module_name, self.class_name)
+        if cls is bytes:
+            return content
+        # a subclass of bytes / bytearray (e.g. numpy.bytes_) takes the data
+        return cls(content)
 
     def format(self):
         content = self.children["content"].getvalue()
@@ -677,11 +681,6 @@ class BytearrayNode(BytesNode):
     ) -> None:
         super().__init__(state, load_context, trusted)
         self.trusted = self._get_trusted(trusted, [bytearray])
-
-    def _construct(self):
-        content_bytes = super()._construct()
-        content_bytearray = bytearray(list(content_bytes))
-        return content_bytearray
 
     def format(self):
         return f"bytearray({super().format()})"
